@@ -33,7 +33,11 @@ pub fn run(args: &[String]) {
         };
         let kind = if stiff { *rng.pick(&[Kind::Robertson, Kind::Decay3, Kind::VdP, Kind::Harmonic, Kind::Slow, Kind::Logistic]) }
                    else { *rng.pick(&[Kind::Harmonic, Kind::Logistic, Kind::Decay3, Kind::Riccati, Kind::VdP, Kind::Mixed, Kind::Slow]) };
-        let span = rng.range(0.3, 3.0);
+        // every sixth case: an oscillating two-component problem over several periods with a non-terminal state event, so
+        // that one event function fires several times (y_events entries with k >= 2 rows and n >= 2 columns)
+        let multi = id % 6 == 1;
+        let kind = if multi { *rng.pick(&[Kind::Harmonic, Kind::VdP, Kind::Mixed]) } else { kind };
+        let span = if multi { rng.range(7.0, 14.0) } else { rng.range(0.3, 3.0) };
         let back = rng.chance(0.3);
         let x0 = if rng.chance(0.3) { rng.range(-1.0, 1.0) } else { 0.0 };
         let xend = if back { x0 - span } else { x0 + span };
@@ -60,6 +64,12 @@ pub fn run(args: &[String]) {
             let (a, c) = if time_ev { (1.0, x0 + (xend - x0) * rng.range(0.1, 0.95)) } else { b[rng.below(n)] = 1.0; (0.0, p.y0()[0] * rng.range(0.3, 0.95)) };
             p.events.push(EventSpec { a, b, c, dir: [-1, 0, 0, 1][rng.below(4)], terminal: if rng.chance(0.3) { Some(1) } else { None } });
         }
+        if multi {
+            let mut b = vec![0.0; n];
+            b[0] = 1.0;
+            p.events.push(EventSpec { a: 0.0, b, c: 0.1, dir: [-1, 0, 1][id / 6 % 3], terminal: None });
+        }
+        let nev = p.events.len();
         let linear = matches!(kind, Kind::Harmonic | Kind::Decay3 | Kind::Slow);
         let jac = if !stiff { "none" } else { match rng.below(3) { 0 => "none", 1 => "callable", _ => if linear { "const" } else { "callable" } } };
         p.user_jac = jac != "none";
